@@ -6,6 +6,56 @@ from .mirsym import (Agg, EnumV, SymEnum, Ref, SliceRef, VecV, StrV, IterV, Opaq
                      Unsupported, BV, concrete, simp, bool_to_bv, merge_vals)
 
 STOP = [
+    '<std::slice::Iter<*> as std::iter::Iterator>::next*',
+    '<std::slice::Iter<*> as std::iter::Iterator>::size_hint*',
+    '<std::slice::Iter<*> as std::iter::Iterator>::fold*',
+    '<std::slice::Iter<*> as std::iter::Iterator>::nth*',
+    '<std::slice::Iter<*> as std::iter::Iterator>::position*',
+    '<std::slice::Iter<*> as std::iter::Iterator>::all*',
+    '<std::slice::Iter<*> as std::iter::Iterator>::any*',
+    '<std::slice::Iter<*> as std::iter::Iterator>::for_each*',
+    '<std::slice::Iter<*> as std::iter::Iterator>::count*',
+    '<std::slice::Iter<*> as std::iter::Iterator>::last*',
+    '<std::slice::Iter<*> as std::iter::Iterator>::advance_by*',
+    '<std::slice::Iter<*> as std::iter::Iterator>::find*',
+    '<std::slice::Iter<*> as std::iter::Iterator>::find_map*',
+    '<std::slice::Iter<*> as std::iter::Iterator>::try_fold*',
+    '<std::slice::Iter<*> as std::iter::Iterator>::rposition*',
+    '<std::slice::Iter<*> as std::iter::Iterator>::is_sorted_by*',
+    '<std::slice::Iter<*> as std::iter::Iterator>::__iterator_get_unchecked*',
+    '<std::slice::Iter<*> as std::iter::DoubleEndedIterator>::next_back*',
+    '<std::slice::Iter<*> as std::iter::DoubleEndedIterator>::nth_back*',
+    '<std::slice::Iter<*> as std::iter::DoubleEndedIterator>::advance_back_by*',
+    '<std::slice::Iter<*> as std::iter::DoubleEndedIterator>::rfold*',
+    '<std::slice::Iter<*> as std::iter::DoubleEndedIterator>::try_rfold*',
+    '<std::slice::Iter<*> as std::iter::ExactSizeIterator>::len*',
+    '<std::slice::Iter<*> as std::iter::ExactSizeIterator>::is_empty*',
+    '<std::slice::IterMut<*> as std::iter::Iterator>::next*',
+    '<std::slice::IterMut<*> as std::iter::Iterator>::size_hint*',
+    '<std::slice::IterMut<*> as std::iter::Iterator>::fold*',
+    '<std::slice::IterMut<*> as std::iter::Iterator>::nth*',
+    '<std::slice::IterMut<*> as std::iter::Iterator>::position*',
+    '<std::slice::IterMut<*> as std::iter::Iterator>::all*',
+    '<std::slice::IterMut<*> as std::iter::Iterator>::any*',
+    '<std::slice::IterMut<*> as std::iter::Iterator>::for_each*',
+    '<std::slice::IterMut<*> as std::iter::Iterator>::count*',
+    '<std::slice::IterMut<*> as std::iter::Iterator>::last*',
+    '<std::slice::IterMut<*> as std::iter::Iterator>::advance_by*',
+    '<std::slice::IterMut<*> as std::iter::Iterator>::find*',
+    '<std::slice::IterMut<*> as std::iter::Iterator>::find_map*',
+    '<std::slice::IterMut<*> as std::iter::Iterator>::try_fold*',
+    '<std::slice::IterMut<*> as std::iter::Iterator>::rposition*',
+    '<std::slice::IterMut<*> as std::iter::Iterator>::is_sorted_by*',
+    '<std::slice::IterMut<*> as std::iter::Iterator>::__iterator_get_unchecked*',
+    '<std::slice::IterMut<*> as std::iter::DoubleEndedIterator>::next_back*',
+    '<std::slice::IterMut<*> as std::iter::DoubleEndedIterator>::nth_back*',
+    '<std::slice::IterMut<*> as std::iter::DoubleEndedIterator>::advance_back_by*',
+    '<std::slice::IterMut<*> as std::iter::DoubleEndedIterator>::rfold*',
+    '<std::slice::IterMut<*> as std::iter::DoubleEndedIterator>::try_rfold*',
+    '<std::slice::IterMut<*> as std::iter::ExactSizeIterator>::len*',
+    '<std::slice::IterMut<*> as std::iter::ExactSizeIterator>::is_empty*',
+    '<std::slice::Iter<*> as std::clone::Clone>::clone',
+    '<std::slice::Iter<*> as std::default::Default>::default',
     'std::vec::Vec::<',
     'alloc::raw_vec::',
     'alloc::alloc::',
@@ -18,7 +68,9 @@ STOP = [
     '<std::vec::IntoIter<',
     'std::slice::<impl [',
     'alloc::slice::<impl [',
-    'std::io::impls::',
+    'std::io::impls::<impl std::io::Read for &[u8]>::',
+    'std::io::impls::<impl std::io::Write for std::vec::Vec<u8>>::',
+    'std::io::impls::<impl std::io::Write for &mut [u8]>::',
     'std::io::Error::',
     '<std::io::Error as ',
     'std::io::error::',
@@ -33,9 +85,7 @@ STOP = [
     'core::fmt::',
     '<std::fmt::',
     'std::slice::Iter::<',
-    '<std::slice::Iter<',
     'std::slice::IterMut::<',
-    '<std::slice::IterMut<',
     'core::slice::<impl [',
     'core::slice::index::',
     'core::slice::raw::',
@@ -67,10 +117,15 @@ STOP = [
     'flate2::',
     '<flate2::',
     'std::hint::',
+    '<*DateTime as std::convert::TryFrom<u32>>::try_from',
+    'core::array::<impl [*; *]>::map*',
+    'std::array::<impl [*; *]>::map*',
+    'std::mem::conjure_zst',
     'std::time::Duration::',
     '<std::time::Duration as ',
     'std::net::Ipv4Addr::',
     '<std::net::Ipv4Addr as ',
+    '<u32 as std::convert::From<std::net::Ipv4Addr>>::from',
     '<[* as std::fmt::Debug>::fmt',
     '<* as std::fmt::Debug>::fmt',
     '<* as std::fmt::Display>::fmt',
@@ -142,7 +197,10 @@ def norm(name):
             continue
         out.append(ch)
         i += 1
-    return ''.join(out)
+    r = ''.join(out)
+    r = re.sub(r'\[[^\[\]]*\]', '[]', r)
+    r = re.sub(r'\[[^\[\]]*\]', '[]', r)
+    return r
 
 
 _norm_cache = {}
@@ -372,7 +430,7 @@ MODELS = {}
 def model(*names):
     def deco(f):
         for n in names:
-            MODELS[n] = f
+            MODELS[norm(n)] = f
         return f
     return deco
 
@@ -390,6 +448,8 @@ def call_model(ex, fn, args, dest_ty):
     for pref, f in PREFIX_MODELS:
         if n.startswith(pref):
             return f(ex, fn, args)
+    if name.endswith('DateTime as std::convert::TryFrom<u32>>::try_from'):
+        return _datetime_try_from(ex, fn, args)
     raise Unsupported('no model for %s  [%s]' % (name, n))
 
 
@@ -493,7 +553,7 @@ def elem_size_of_vec(ex, fn, which='ret'):
     return 1
 
 
-@model('std::vec::Vec::new')
+@model('std::vec::Vec::new', '<std::vec::Vec as std::default::Default>::default')
 def _vec_new(ex, fn, args):
     return VecV([])
 
@@ -557,10 +617,10 @@ def _vec_truncate(ex, fn, args):
 
 
 @model('std::vec::Vec::as_slice', 'std::vec::Vec::as_mut_slice', '<std::vec::Vec as std::ops::Deref>::deref', '<std::vec::Vec as std::ops::DerefMut>::deref_mut',
-       '<std::vec::Vec as std::convert::AsRef<[T]>>::as_ref', '<std::vec::Vec as std::borrow::Borrow<[T]>>::borrow', 'std::string::String::as_bytes',
+       '<std::vec::Vec as std::convert::AsRef<[]>>::as_ref', '<std::vec::Vec as std::borrow::Borrow<[]>>::borrow', 'std::string::String::as_bytes',
        'std::string::String::as_str', '<std::string::String as std::ops::Deref>::deref', 'core::str::<impl str>::as_bytes',
-       '<std::string::String as std::convert::AsRef<str>>::as_ref', '<std::string::String as std::convert::AsRef<[u8]>>::as_ref',
-       '<std::vec::Vec as std::convert::AsRef<[u8]>>::as_ref')
+       '<std::string::String as std::convert::AsRef<str>>::as_ref', '<std::string::String as std::convert::AsRef<[]>>::as_ref',
+       '<std::vec::Vec as std::convert::AsRef<[]>>::as_ref')
 def _as_slice(ex, fn, args):
     return as_slice(ex, args[0])
 
@@ -588,7 +648,7 @@ def _from_elem(ex, fn, args):
 
 
 @model('std::slice::<impl []>::to_vec', 'alloc::slice::<impl []>::to_vec', '<[] as std::borrow::ToOwned>::to_owned', '<std::vec::Vec as std::clone::Clone>::clone',
-       '<std::vec::Vec as std::convert::From<&[T]>>::from', '<std::vec::Vec as std::convert::From<&mut [T]>>::from', 'std::slice::<impl []>::into_vec',
+       '<std::vec::Vec as std::convert::From<&[]>>::from', '<std::vec::Vec as std::convert::From<&mut []>>::from', 'std::slice::<impl []>::into_vec',
        'alloc::slice::<impl []>::into_vec')
 def _to_vec(ex, fn, args):
     s = as_slice(ex, args[0])
@@ -603,7 +663,7 @@ def _string_clone(ex, fn, args):
     return StrV(VecV(list(s.items())))
 
 
-@model('std::string::String::new')
+@model('std::string::String::new', '<std::string::String as std::default::Default>::default')
 def _string_new(ex, fn, args):
     return StrV(VecV([]))
 
@@ -918,8 +978,8 @@ def _eq_model(ex, fn, args):
     return simp(z3.And(*[x == y for x, y in zip(xs, ys)]))
 
 
-MODELS['<str as std::cmp::PartialEq>::eq'] = _eq_model
-MODELS['<[] as std::cmp::PartialEq>::eq'] = _eq_model
+MODELS[norm('<str as std::cmp::PartialEq>::eq')] = _eq_model
+MODELS[norm('<[] as std::cmp::PartialEq>::eq')] = _eq_model
 
 
 # ---------------------------------------------------------------------------------------- io
@@ -935,7 +995,7 @@ def reader_state(ex, r):
     return ref, cur
 
 
-@model('std::io::impls::<impl std::io::Read for &[u8]>::read_exact')
+@model('std::io::impls::<impl std::io::Read for &[]>::read_exact')
 def _read_exact(ex, fn, args):
     ref, cur = reader_state(ex, args[0])
     buf = as_slice(ex, args[1])
@@ -948,7 +1008,7 @@ def _read_exact(ex, fn, args):
     return ok(UNIT)
 
 
-@model('std::io::impls::<impl std::io::Read for &[u8]>::read')
+@model('std::io::impls::<impl std::io::Read for &[]>::read')
 def _read(ex, fn, args):
     ref, cur = reader_state(ex, args[0])
     buf = as_slice(ex, args[1])
@@ -959,7 +1019,7 @@ def _read(ex, fn, args):
     return ok(B64(k))
 
 
-@model('std::io::impls::<impl std::io::Read for &[u8]>::read_to_end')
+@model('std::io::impls::<impl std::io::Read for &[]>::read_to_end')
 def _read_to_end(ex, fn, args):
     ref, cur = reader_state(ex, args[0])
     v = deref(ex, args[1], VecV)
@@ -968,7 +1028,7 @@ def _read_to_end(ex, fn, args):
     return ok(B64(cur.len))
 
 
-@model('std::io::impls::<impl std::io::Write for std::vec::Vec<u8>>::write_all')
+@model('std::io::impls::<impl std::io::Write for std::vec::Vec>::write_all')
 def _write_all_vec(ex, fn, args):
     v = deref(ex, args[0], VecV)
     s = as_slice(ex, args[1])
@@ -976,7 +1036,7 @@ def _write_all_vec(ex, fn, args):
     return ok(UNIT)
 
 
-@model('std::io::impls::<impl std::io::Write for std::vec::Vec<u8>>::write')
+@model('std::io::impls::<impl std::io::Write for std::vec::Vec>::write')
 def _write_vec(ex, fn, args):
     v = deref(ex, args[0], VecV)
     s = as_slice(ex, args[1])
@@ -984,12 +1044,12 @@ def _write_vec(ex, fn, args):
     return ok(B64(s.len))
 
 
-@model('std::io::impls::<impl std::io::Write for std::vec::Vec<u8>>::flush', 'std::io::impls::<impl std::io::Write for &mut [u8]>::flush')
+@model('std::io::impls::<impl std::io::Write for std::vec::Vec>::flush', 'std::io::impls::<impl std::io::Write for &mut []>::flush')
 def _flush(ex, fn, args):
     return ok(UNIT)
 
 
-@model('std::io::impls::<impl std::io::Write for &mut [u8]>::write_all')
+@model('std::io::impls::<impl std::io::Write for &mut []>::write_all')
 def _write_all_slice(ex, fn, args):
     ref = args[0]
     cur = ex.read(ref.cell, ref.path)
@@ -1139,3 +1199,107 @@ def _num_impl(ex, fn, args):
 
 
 PREFIX_MODELS[0] = ('core::num::<impl ', _num_impl)
+
+
+# ---------------------------------------------------------------------------------------- Duration
+class DurV(Agg):
+    """Duration as (secs, nanos) that remembers the integer it was built from, so that as_millis(from_millis(x)) is x
+    without 128-bit division in the query (the identity is exact for every u64)."""
+    __slots__ = ('millis', 'secs_src')
+
+    def __init__(self, f, millis=None, secs_src=None):
+        Agg.__init__(self, f)
+        self.millis = millis
+        self.secs_src = secs_src
+
+
+@model('std::time::Duration::from_secs')
+def _dur_from_secs(ex, fn, args):
+    return DurV([args[0], BV(0, 32)], secs_src=args[0])
+
+
+@model('std::time::Duration::from_millis')
+def _dur_from_millis(ex, fn, args):
+    ms = args[0]
+    return DurV([z3.UDiv(ms, BV(1000, 64)), z3.Extract(31, 0, z3.URem(ms, BV(1000, 64))) * BV(1000000, 32)], millis=ms)
+
+
+@model('std::time::Duration::as_secs')
+def _dur_as_secs(ex, fn, args):
+    return deref(ex, args[0], Agg).f[0]
+
+
+@model('std::time::Duration::as_millis')
+def _dur_as_millis(ex, fn, args):
+    d = deref(ex, args[0], Agg)
+    if isinstance(d, DurV) and d.millis is not None:
+        return z3.ZeroExt(64, d.millis)
+    if isinstance(d, DurV) and d.secs_src is not None:
+        return z3.ZeroExt(64, d.secs_src) * BV(1000, 128)
+    return z3.ZeroExt(64, d.f[0]) * BV(1000, 128) + z3.ZeroExt(96, z3.UDiv(d.f[1], BV(1000000, 32)))
+
+
+@model('std::time::Duration::subsec_millis')
+def _dur_subsec_millis(ex, fn, args):
+    d = deref(ex, args[0], Agg)
+    return z3.UDiv(d.f[1], BV(1000000, 32))
+
+
+@model('std::mem::conjure_zst')
+def _conjure_zst(ex, fn, args):
+    return UNIT
+
+
+# ---------------------------------------------------------------------------------------- contracts of separately verified kernels
+DT_VALID = z3.Function('datetime_valid', z3.BitVecSort(32), z3.BoolSort())
+
+
+def _datetime_try_from(ex, fn, args):
+    """contract established by C15 (Kani, all 2^32 words): Ok(DateTime{inner: v}) iff v is a real calendar instant.
+    The calendar predicate is an uninterpreted symbol shared with the encoder, so C01 queries carry no calendar arithmetic."""
+    v = args[0]
+    if ex.branch(DT_VALID(v)):
+        return ok(Agg([v]))
+    return err(Opaque('DateTimeError'))
+
+
+def _array_map(ex, fn, args):
+    arr = args[0]
+    ck = closure_key(ex, fn, 1, args[1])
+    clo = Ref(Cell(args[1]))
+    return Agg([ex.call(ck, [clo, Agg([e])]) for e in arr.f])
+
+
+PREFIX_MODELS.append(('core::array::<impl []>::map', _array_map))
+PREFIX_MODELS.append(('std::array::<impl []>::map', _array_map))
+
+
+# ---------------------------------------------------------------------------------------- Ipv4Addr (opaque wrapper of its u32 value)
+@model('<std::net::Ipv4Addr as std::convert::From<u32>>::from', 'std::net::Ipv4Addr::from_bits')
+def _ip_from_u32(ex, fn, args):
+    if isinstance(args[0], Agg):
+        a = args[0].f
+        return Agg([z3.Concat(a[0], a[1], a[2], a[3])])
+    return Agg([args[0]])
+
+
+@model('<u32 as std::convert::From<std::net::Ipv4Addr>>::from', 'std::net::Ipv4Addr::to_bits')
+def _ip_to_u32(ex, fn, args):
+    v = args[0]
+    if isinstance(v, Ref):
+        v = ex.read(v.cell, v.path)
+    return v.f[0]
+
+
+@model('std::net::Ipv4Addr::octets')
+def _ip_octets(ex, fn, args):
+    v = deref(ex, args[0], Agg)
+    x = v.f[0]
+    return Agg([z3.Extract(31, 24, x), z3.Extract(23, 16, x), z3.Extract(15, 8, x), z3.Extract(7, 0, x)])
+
+
+@model('std::net::Ipv4Addr::new')
+def _ip_new(ex, fn, args):
+    return Agg([z3.Concat(args[0], args[1], args[2], args[3])])
+
+
